@@ -30,6 +30,9 @@ def check(run: Run) -> None:
     nextids_untouched(run, model, "C13.R1")
     run.rule("C13.R6", "redo is idempotent: every processed page is removed from the index before it is added (also pages that look new), and only reindex depends on the content of file_hash.json")
     reindex_rules(run, model, dict(order="C13.R6", ack="C13.R2", recover="C13.R6"))
+    from ..indexscen import bus_rules
+
+    bus_rules(run, model, "C13.R2")
     writeback_rules(run, model, "C13.R2")
     create_rules(run, model, "C13.R6")
     run.rule("C13.R7", "a re-run after a kill between the commit of a stamped page and its write-back re-stamps the note from the file's (unstamped) line without losing a word: "
